@@ -310,7 +310,7 @@ def scenx(pre, exps, calls, tail=(":chk",)):
 
 
 def gen_objects(rng, tier, out):
-    nsets = 70 if tier == "quick" else 2500
+    nsets = 70 if tier == "quick" else 2000
     for k in range(nsets):
         mixed = (k % 7 == 6)
         exps = gen_obj_exps(rng, rng.choice([1, 1, 2]), mixed)
@@ -355,7 +355,7 @@ def interleave(rng, seqs):
 
 
 def gen_scopes(rng, tier, out):
-    nsets = 110 if tier == "quick" else 4000
+    nsets = 110 if tier == "quick" else 3500
     for k in range(nsets):
         scopes = rng.choice([[0, 1], [1, 2], [0, 1, 2], [1, 2, 3], [2, 1], [0, 2, 1, 3], [1, 2]])
         cfg = []
@@ -429,7 +429,7 @@ def gen_scopes(rng, tier, out):
 
 def generate(tier, rng):
     out = []
-    nsets = 170 if tier == "quick" else 6000
+    nsets = 170 if tier == "quick" else 3500
     for k in range(nsets):
         stream = k % 10
         ign_p = 0.5 if stream == 7 else 0.0
